@@ -134,13 +134,46 @@ AnyTok(e, path, self, t) ==
     [] e.k = "call"  -> IF e.fn \in KnownFns THEN {<<"hcl-functionName", "name", path, 0>>} \cup UNION { AnyTok(e.es[i], Idx(path, "es", i), self, "x") : i \in DOMAIN e.es } ELSE {}
     [] OTHER -> {}
 
+\* ---- type declarations (a little language of its own under the type-declaration constraint) ---------------
+\*   [k |-> "tprim", v]  string | number | bool | any          [k |-> "tcoll", fn, e]   list(T) set(T) map(T)
+\*   [k |-> "tobj", items : Seq([key |-> [k |-> "id", v], val |-> T])]   object({ k = T, .. })
+\*   [k |-> "ttup", es]   tuple([T, ..])      [k |-> "topt", e]  optional(T)  (left open)     [k |-> "tbad", v]  a name that is no type
+TypeKinds == {"tprim", "tcoll", "tobj", "ttup", "topt", "tbad"}
+RECURSIVE TypeTok(_, _)
+TypeTok(e, path) ==
+  CASE e.k = "tprim" -> {<<"hcl-typePrimitive", "full", path, 0>>}
+    [] e.k = "tcoll" -> {<<"hcl-typeComplex", "name", path, 0>>} \cup TypeTok(e.e, Sub(path, "e"))
+    [] e.k = "tobj"  -> {<<"hcl-typeComplex", "name", path, 0>>}
+                        \cup UNION { {<<"hcl-attrName", "full", Sub(Idx(path, "items", i), "key"), 0>>} \cup TypeTok(e.items[i].val, Sub(Idx(path, "items", i), "val")) : i \in DOMAIN e.items }
+    [] e.k = "ttup"  -> {<<"hcl-typeComplex", "name", path, 0>>} \cup UNION { TypeTok(e.es[i], Idx(path, "es", i)) : i \in DOMAIN e.es }
+    [] OTHER -> {}
+\* a type declaration the hover can describe: every part of it is a type (a complex type with a part that is no type is
+\* marked as far as it goes - its name token - but there is no type to describe)
+RECURSIVE TypeValid(_)
+TypeValid(e) ==
+  CASE e.k = "tprim" -> TRUE
+    [] e.k = "tcoll" -> TypeValid(e.e)
+    [] e.k = "tobj"  -> \A i \in DOMAIN e.items : TypeValid(e.items[i].val)
+    [] e.k = "ttup"  -> \A i \in DOMAIN e.es : TypeValid(e.es[i])
+    [] e.k = "topt"  -> TypeValid(e.e)
+    [] OTHER -> FALSE
+\* optional(T [, default]) is only meaningful as the type of an object attribute; what is marked inside it is left open
+RECURSIVE TypeOpen(_, _)
+TypeOpen(e, path) ==
+  CASE e.k = "topt"  -> {path}
+    [] e.k = "tcoll" -> TypeOpen(e.e, Sub(path, "e"))
+    [] e.k = "tobj"  -> UNION { TypeOpen(e.items[i].val, Sub(Idx(path, "items", i), "val")) : i \in DOMAIN e.items }
+    [] e.k = "ttup"  -> UNION { TypeOpen(e.es[i], Idx(path, "es", i)) : i \in DOMAIN e.es }
+    [] OTHER -> {}
+
 RECURSIVE TokensP(_, _, _, _)
 TokensP(c, e, path, self) ==
   CASE c.k = "any"   -> AnyTok(e, path, self, c.t)
     [] c.k = "ref"   -> IF e.k = "ref" THEN RefTok(e, path, self) ELSE {}
     [] c.k = "lit"   -> IF e.k = "lit" /\ e.t = c.t THEN LitTok(e, path) ELSE {}
     [] c.k = "kw"    -> IF e.k = "kw" THEN {<<"hcl-keyword", "full", path, 0>>} ELSE {}
-    [] c.k = "typeDecl" -> IF e.k = "type" /\ e.v = "string" THEN {<<"hcl-typePrimitive", "full", path, 0>>} ELSE {}
+    [] c.k = "typeDecl" -> IF e.k = "type" /\ e.v = "string" THEN {<<"hcl-typePrimitive", "full", path, 0>>}
+                           ELSE IF e.k \in TypeKinds THEN TypeTok(e, path) ELSE {}
     [] c.k \in {"list", "set"} -> IF e.k = "list" THEN UNION { TokensP(c.e, e.es[i], Idx(path, "es", i), self) : i \in DOMAIN e.es } ELSE {}
     [] c.k = "tuple" -> IF e.k = "list" THEN UNION { TokensP(c.es[i], e.es[i], Idx(path, "es", i), self) : i \in DOMAIN e.es \cap DOMAIN c.es } ELSE {}
     [] c.k = "map"   -> IF e.k = "obj"
@@ -193,6 +226,7 @@ RECURSIVE OpenTok(_, _, _)
 OpenTok(c, e, path) ==
   Blind(c, e, path)
   \cup (CASE c.k = "oneOf" -> {path}
+          [] c.k = "typeDecl" /\ e.k \in TypeKinds -> TypeOpen(e, path)
           [] c.k = "typeDecl" /\ ~(e.k = "type" /\ e.v = "string") /\ e.k # "ref" -> {path}
           [] c.k = "any" /\ c.t = "dynamic" -> Colls(e, path)
           [] c.k \in {"list", "set"} /\ e.k = "list" -> UNION { OpenTok(c.e, e.es[i], Idx(path, "es", i)) : i \in DOMAIN e.es }
